@@ -299,11 +299,16 @@ def harvest(ctx, rep, f_de, f_sh):
                 user_sample()
                 user_sample()
             opt.fit()
+            refit = ctx.rng.random() < (0.6 if kind == "SHADE" else 0.25)
+            if refit:
+                pops.append(L.snap(opt._population_g_i))
+                opt.fit()            # the same object fitted again (a restart): every clause holds in the second run as well
             pops.append(L.snap(opt._population_g_i))
         rep.traces += 1
         rep.hist("harvest_kind", kind + (":" + strat if strat else ""))
         rep.hist("harvest_g2p/elitism/min", (use_g2p, elitism, minimization))
         rep.hist("harvest_init", init_mode)
+        rep.hist("harvest_refit", refit)
         cfg = dict(kind=kind, strategy=strat, seed=seed, dim=dim, pop=pop, left=la.tolist(), right=ra.tolist(), F=F, CR=CR, objective=obj.kind,
                    g2p=use_g2p, elitism=elitism, minimization=minimization, init_mode=init_mode)
         # every candidate handed to the objective (its genotype when a genotype_to_phenotype is configured), every population member
@@ -319,6 +324,18 @@ def harvest(ctx, rep, f_de, f_sh):
             if any(not in_box(x, la, ra) for x in P) or np.asarray(P).shape != (pop, dim):
                 sig = "bounds_control_mean:border-plus-value" if kind == "SHADE" else "member-outside-box"
                 rep.problem("population", f"{kind}: a population member lies outside the box", dict(cfg), sig, True, np.asarray(P).tolist(), None, "C07_run_in_box")
+        # "an archive member where the strategy says so": every row of the archive view handed to current-to-pbest is an individual that
+        # was a population member (or a candidate) of this optimizer at some point
+        if kind == "SHADE":
+            known = {tuple(np.asarray(x, dtype=np.float64).tolist()) for P in pops for x in P} | {tuple(np.asarray(x, dtype=np.float64).tolist()) for x in init}
+            known |= {tuple(np.asarray(st["out"], dtype=np.float64).tolist()) for st in records} | {tuple(np.asarray(x, dtype=np.float64).tolist()) for st in records for x in st["pop"]}
+            for st in records:
+                bad_rows = [np.asarray(a).tolist() for a in st["archive"] if tuple(np.asarray(a, dtype=np.float64).tolist()) not in known]
+                rep.count("shade_archive_members", (seed, len(rep.nontrivial)), nontrivial=False)
+                if bad_rows:
+                    rep.problem("candidate", "SHADE: the archive handed to current-to-pbest contains a row that was never a population member of this optimizer",
+                                dict(cfg, row=bad_rows[0], refit=refit), "archive-foreign-row", True, bad_rows[0], None, "C07_shade_sound")
+                    break
         for st in records:
             ds = draws_to_model(st["draws"])
             if ds is None:
